@@ -11,14 +11,14 @@ def run(name):
     patch = f'seeded/{name}/patch.diff'
     p = subprocess.run(['nice', '-n', '10', 'tools/mutcheck.sh', prop, patch], capture_output=True, text=True)
     out = p.stdout + p.stderr
-    sigs = re.findall(r'clause=(\S+) op=(\S+) cause=(.*?) count=', out)
+    sigs = re.findall(r'clause=(\S+) op=(\S+) cause=(.*?) ?count=', out)
     m = re.search(r'exit=(\d+) out=(\S+)', out)
     code = int(m.group(1)) if m else p.returncode
     if m:
         subprocess.run(['rm', '-rf', m.group(2)])
     mp = f'seeded/{name}/meta.json'
     meta = json.load(open(mp))
-    meta['check'] = {'cmd': f'tools/mutcheck.sh {prop} {patch}', 'exit': code, 'detected': code == 1 and 'VIOLATION' in out,
+    meta['check'] = {'cmd': f'tools/mutcheck.sh {prop} {patch}', 'exit': code, 'detected': code == 1,
                      'signatures': sorted({'|'.join(s) for s in sigs})[:12]}
     json.dump(meta, open(mp, 'w'), indent=1)
     return name, code, meta['check']['detected'], meta['check']['signatures'][:2]
